@@ -418,6 +418,7 @@ def swallowed_errors(ctx):
                        message=f"{f.qual} catches `{key[1]}` and carries on ({'; '.join(norm(x)[:40] for x in h.body)[:100]}): the failure does not stop the run",
                        consequence="an I/O error while a frame is written (or an error inside the update) is swallowed: the run continues and the "
                                    "file silently lacks a frame or holds the state of another step, instead of stopping with the frames recorded so far")
-    if n < 8:
-        raise AnalysisError(f"only {n} exception handlers found on the run path")
+    # vacuity guard on what the rule is about: the handlers that do not re-raise (six are confirmed)
+    if len(seen) < 4:
+        raise AnalysisError(f"only {len(seen)} handlers that carry on after an exception found on the run path ({n} handlers in all)")
     ctx.note("swallowing_handlers", sorted(f"{a} / {b}" for a, b in seen))
